@@ -466,14 +466,23 @@ class Parser:
         node.ctx = context
         return node
 
+    def literal_eval(self, tok: TokenInfo) -> Any:
+        """Evaluate a NUMBER/STRING token; an invalid literal is reported at the token, not at '<unknown>' line 1."""
+        try:
+            return ast.literal_eval(tok.string)
+        except SyntaxError as e:
+            self.raise_syntax_error_known_location(e.msg, tok)
+        except ValueError as e:  # e.g. integer string conversion limits
+            self.raise_syntax_error_known_location(str(e), tok)
+
     def ensure_real(self, number: TokenInfo) -> float | int:
-        value = ast.literal_eval(number.string)
+        value = self.literal_eval(number)
         if not isinstance(value, float | int):
             self.raise_syntax_error_known_location("real number required in complex literal", number)
         return value
 
     def ensure_imaginary(self, number: TokenInfo) -> complex:
-        value = ast.literal_eval(number.string)
+        value = self.literal_eval(number)
         if not isinstance(value, complex):
             self.raise_syntax_error_known_location("imaginary number required in complex literal", number)
         return value
@@ -489,9 +498,9 @@ class Parser:
         return s.encode()[0]
 
     def _concat_strings_in_constant(self, parts: list[TokenInfo]) -> ast.Constant:
-        s = ast.literal_eval(parts[0].string)
+        s = self.literal_eval(parts[0])
         for ss in parts[1:]:
-            value = ast.literal_eval(ss.string)
+            value = self.literal_eval(ss)
             if isinstance(value, bytes) != isinstance(s, bytes):
                 self.raise_syntax_error_known_range("cannot mix bytes and nonbytes literals", parts[0], parts[-1])
             s += value
